@@ -352,6 +352,8 @@ def extra_alphabet():
         _fn('gg', None, [lab('A'), lab('A'), jmp('B')]),
         _fn('gg', None, [jmp('A'), lab('B'), {'expr': {'expr': one}}]),                    # unknown A, unused B, pointless
         {'expr': {'expr': {'function': {'name': 'gg', 'args': []}}}},
+        lab('expr'), jmp('expr'), lab('nextexpr'), {'jump': {'label': 'return', 'expr': jm.CALL_CC}}, lab('return'),
+        _fn('ff', None, [lab('jump'), jmp('jump'), {'function': {'name': 'gg', 'statements': [lab('A'), jmp('B')]}}]),   # a function statement inside a function body
         _fn_last('ff', ['a', 'a'], [{'return': {'expr': var('a')}}]),                     # duplicate argument, the second one is the "..." parameter
         _fn_last('gg', ['a', 'b'], [{'return': {'expr': var('a')}}]),                     # unused "..." parameter
     ]
@@ -717,7 +719,7 @@ def families(tier):
                f'a function-local variable / an argument read exactly once, inside every expression tree with <= {maxn} internal nodes, in a return, an assignment, a jump condition and a call argument: an "unused" verdict is refuted by renaming the definition', expected=nuse * len(USE_KINDS) * 2),
         Family('exprstmts', fam_exprstmt, [(maxn, idxs) for idxs in split(list(range(ntrees)), 32)],
                f'every expression tree with <= {maxn} internal nodes over {{+, &&, ==, <, unary -, !, group}} and leaves {{logging call, 0, x}} as an expression statement, at global scope and inside a function: a "pointless" verdict is justified by deleting the statement', expected=2 * ntrees),
-        Family('jumpmodels', fam_jump, shards, f'every list of length <= {maxlen} over the {nq}-statement alphabet (C08 alphabet + dangling jumps, third label, pointless statement, 9 function statements with duplicate names/arguments and label-bearing bodies)',
+        Family('jumpmodels', fam_jump, shards, f'every list of length <= {maxlen} over the {nq}-statement alphabet (C08 alphabet + dangling jumps, third label, pointless statement, 10 function statements (one with a nested function statement), labels named like schema keys with duplicate names/arguments and label-bearing bodies)',
                expected=sum(nq ** k for k in range(maxlen + 1))),
         Family('structured', fam_structured, split(sc, 48), 'parsed nesting chains (depth per tier) and every small program wrapped in a function with an unused argument, an unused variable and a pointless statement', expected=len(sc)),
         Family('shipped', fam_shipped, [files], 'the shipped .bare scripts found at run time', expected=len(files)),
